@@ -202,6 +202,15 @@ private:
       } else {
         // cst is a disequation
         Interval old_i = env.at(pivot);
+        if (!res.is_top()) {
+          Interval ic =
+              interval_traits::mk_interval<Interval>(c, get_bitwidth(pivot));
+          if (!(rhs * ic == res)) {
+            // res is not divisible by c (integer division truncates):
+            // c*pivot != res holds for every value of pivot.
+            continue;
+          }
+        }
         Interval new_i = interval_traits::trim_interval(old_i, rhs);
         if (new_i.is_bottom()) {
           return true;
